@@ -259,9 +259,10 @@ def _body_paths(check):
     for ln_ in [n_ for n_ in LIMITERS if n_ in proj.module("xnum").functions]:
         n0 = len(check.obs)
         check.guarded("LIM-AXIOM", "xnum." + ln_, lambda: c12.analyse(check, proj, ln_))
+        check.guarded("LIM-PURE", "xnum." + ln_, lambda: c12.pure_and_unwrapped(check, proj, ln_))
         kept = []
         for o in check.obs[n0:]:
-            if o.rule in ("LIM-CONSIST", "LIM-ZERO", "LIM-ODD"):
+            if o.rule in ("LIM-CONSIST", "LIM-ZERO", "LIM-ODD", "LIM-PURE", "LIM-WRAP") or (o.rule == "LIM-HOMOG" and o.key == "abs-rounding"):
                 kept.append(o)
             elif o.rule == "LIM-AXIOM":
                 kept.append(o)
